@@ -359,7 +359,15 @@ func runMerge(t *testing.T) {
 	res := map[string]int{}
 	for _, kind := range []string{"sigs", "states", "scheds", "pairs"} {
 		var all []uint64
-		for _, pre := range strings.Split(*fInputs, ",") {
+		inputs := *fInputs
+		if strings.HasPrefix(inputs, "@") {
+			b, err := os.ReadFile(inputs[1:])
+			if err != nil {
+				fatal2("read %s: %v", inputs[1:], err)
+			}
+			inputs = strings.ReplaceAll(string(b), "\n", ",")
+		}
+		for _, pre := range strings.Split(inputs, ",") {
 			if pre == "" {
 				continue
 			}
